@@ -17,10 +17,11 @@ def case_group_validity(case):
     members = []
     kinds = []
     for j in range(n):
-        k = r.choice(["ok", "fail_cond", "fail_always", "error", "norun", "stop"])
+        k = r.choice(["ok", "fail_cond", "fail_always", "error", "norun", "stop", "fail_all"])
         kinds.append(k)
         members.append({"ok": "$[*][yes()]", "fail_cond": "$[1*][#n == 3 -> fail()]", "fail_always": "$[1*][fail()]",
-                        "error": "$[1*][add(#a, 1)]", "norun": "~ run-mode: no-run ~ $[*][yes()]", "stop": "$[*][stop(#n == 2)]"}[k])
+                        "error": "$[1*][add(#a, 1)]", "norun": "~ run-mode: no-run ~ $[*][yes()]", "stop": "$[*][stop(#n == 2)]",
+                        "fail_all": "$[1*][#n == 4 -> fail_all()]"}[k])
     pol = r.choice([["collect"], ["collect", "fail"], ["fail"]])
     method = r.choice(RG.METHODS)
     cp = RG.new_csvpaths(policy=["collect"], csvpath_policy=pol)
@@ -33,11 +34,21 @@ def case_group_validity(case):
         return res
     verdicts = [m["valid"] for m in mobs]
     # each member's own verdict: False exactly when it failed the file
+    # fail_all(): the caller itself fails when it executes it
+    first4 = next((i for i, rec in enumerate(recs) if i >= 1 and rec[1] == "4"), None)
+    callers = [j for j, k in enumerate(kinds) if k == "fail_all"] if first4 is not None else []
+    by_line = method.endswith("by_line")
     for j, k in enumerate(kinds):
         has3 = any(rec[1] == "3" for rec in recs[1:])
-        want = {"ok": True, "fail_cond": not has3, "fail_always": False, "error": not ("fail" in pol), "norun": True, "stop": True}[k]
+        want = {"ok": True, "fail_cond": not has3, "fail_always": False, "error": not ("fail" in pol), "norun": True, "stop": True,
+                "fail_all": first4 is None}[k]
         if k == "error" and all(rec[0].isdigit() for rec in recs[1:]):
             want = True
+        if callers and j not in callers:
+            # what fail_all() does to the *other* csvpaths of the run is not settled by the documentation (as built: next_paths
+            # fails the members that follow, the breadth-first methods fail everyone from then on, collect_paths and
+            # fast_forward_paths fail nobody else): only the caller's own verdict and the aggregation below are judged
+            continue
         if verdicts[j] != want:
             res["oracle"].append({"what": "a member's verdict is not False exactly when it failed the file", "member": members[j],
                                   "got": verdicts[j], "want": want})
